@@ -7,7 +7,7 @@ ASSUMPTIONS = [
     "select_spanned: the unbounded proof is the Verus obligation (Peekable over the sibling list modelled with std's peek/next semantics, `span` closure = field read, Span::containment's contract taken from the Kani proof); the Kani instances N = 1..4 on the compiled code are its bounded twins and give concrete counterexamples",
     "termination not proved by Kani",
 ]
-NOT_UNDER_CONTRACT = ["completion::complete / find traversal of the typed AST", "suggestion scoping", "agreement of reported types with the checker", "signature_help", "get_metadata", "behaviour on Expr::Error nodes"]
+NOT_UNDER_CONTRACT = ["completion::complete / find traversal of the typed AST", "suggestion scoping other than as-patterns and record-pattern fields (ScopedMap::insert assumed to add a binding; `bound_names` of a nested pattern is uninterpreted)", "agreement of reported types with the checker other than the label of a record-pattern field (row lookup named by a helper)", "signature_help other than the argument index (first / position: std semantics assumed)", "get_metadata", "behaviour on Expr::Error nodes"]
 POS = "base/src/pos.rs"
 COMP = "completion/src/lib.rs"
 
